@@ -149,6 +149,12 @@ func units(tier string) []mc.Unit {
 					add(params{ini, fin, []Mutation{f1, {"finalize", 0, nil}, {"extend", 0, []string{"e"}}, {"fork", 1, []string{"E"}}}, chunk, 0, 1})
 				}
 			}
+			if tier == "quick" && ii == 1 && fin == 1 {
+				// two deviations (e.g. a stop at one point AND the fork at another) on two single-fork scripts, sliced
+				for _, f1 := range []Mutation{{"fork", 1, []string{"-", "e"}}, {"fork", 2, []string{"e", "e"}}} {
+					us = append(us, mc.Sliced(mc.Unit{Name: params{ini, fin, []Mutation{f1}, 10, 1, 2}.String() + " bound=2", Params: params{ini, fin, []Mutation{f1}, 10, 1, 2}}, 16)...)
+				}
+			}
 			// nothing processed is replaced: growth and finality only (no rewind allowed)
 			add(params{ini, fin, []Mutation{{"extend", 0, []string{"e"}}, {"finalize", 0, nil}, {"extend", 0, []string{"-", "e"}}}, 10, 1, 1})
 		}
@@ -849,7 +855,7 @@ func main() {
 		},
 		Bounds: func(tier string) map[string]any {
 			return map[string]any{"initial_chains": "3 shapes of 3-4 blocks", "finalized": []int{0, 1}, "fork_depth": "1..2", "fork_content": "same events / removed+moved later (longer) / added (longer)",
-				"scripts": "one fork; fork+fork; fork, finalize, extend, fork; growth only", "deviation_bound": map[string]string{"quick": "1", "thorough": "2 for single-fork scripts (with a restart budget of 1), 1 for the multi-mutation scripts"}[tier], "horizon_steps": 600}
+				"scripts": "one fork; fork+fork; fork, finalize, extend, fork; growth only", "deviation_bound": map[string]string{"quick": "1 (2 for two single-fork scripts on the chain e-E with finalized=1)", "thorough": "2 for single-fork scripts (with a restart budget of 1), 1 for the multi-mutation scripts"}[tier], "horizon_steps": 600}
 		},
 	})
 }
